@@ -235,7 +235,7 @@ def mean(t, dim=None, marginals=None, keepdim=False):
     """
 
     if marginals is not None:
-        pdfcores = [torch.ones(sh) / sh for sh in t.shape]
+        pdfcores = [torch.ones(1, sh, 1) for sh in t.shape]
         if dim is None:
             dim = range(t.dim())
         for d, marg in zip(dim, marginals):
